@@ -16,6 +16,7 @@ import (
 	"path/filepath"
 	"strings"
 	"sync"
+	"syscall"
 	"time"
 
 	"gopkg.in/yaml.v3"
@@ -369,6 +370,13 @@ func c28Gen(r *rand.Rand, tier string, i int) any {
 	case x < 80:
 		tr := map[string]any{}
 		durs := []string{"1ns", "3ns", "4ns", "1us", "1ms", "100ms", "1s", "0s", "2562047h"}
+		// a duration at or above the validator's minimum most of the time (so that the file is accepted)
+		atLeast := func(min string) string {
+			if r.Intn(5) == 0 {
+				return durs[r.Intn(len(durs))]
+			}
+			return []string{min, min, "1h", "24h", "2562047h"}[r.Intn(5)]
+		}
 		if r.Intn(4) > 0 {
 			tr["BatchTimeout"] = durs[r.Intn(len(durs))]
 		}
@@ -376,15 +384,87 @@ func c28Gen(r *rand.Rand, tier string, i int) any {
 			tr["SendTicker"] = durs[r.Intn(len(durs))]
 		}
 		if r.Intn(3) == 0 {
-			tr["SendDelay"] = durs[r.Intn(len(durs))]
+			tr["SendDelay"] = atLeast("100ms")
 		}
 		if r.Intn(3) == 0 {
-			tr["MaxBatchSize"] = []int64{0, 1, 2, 500, 1 << 31, 1 << 40}[r.Intn(6)]
+			tr["MaxBatchSize"] = []int64{100, 101, 500, 1 << 31, 1 << 40, 99}[r.Intn(6)]
 		}
 		if r.Intn(4) == 0 {
-			tr["TraceTimeout"] = []string{"1s", "60s", "999ms", "2562047h"}[r.Intn(4)]
+			tr["TraceTimeout"] = []string{"1s", "60s", "1s", "2562047h", "999ms"}[r.Intn(5)]
 		}
-		return c28Input{Kind: "mainconfig", Main: map[string]any{"Traces": tr}}
+		if r.Intn(4) == 0 {
+			tr["SpanLimit"] = []int64{0, 1, 2, -1, 1 << 40}[r.Intn(5)]
+		}
+		if r.Intn(4) == 0 {
+			tr["MaxExpiredTraces"] = []int64{1000, 1000, 1001, 1 << 40, 999, 0}[r.Intn(6)]
+		}
+		main := map[string]any{"Traces": tr}
+		pick := func(vals ...any) any { return vals[r.Intn(len(vals))] }
+		if r.Intn(2) == 0 {
+			c := map[string]any{}
+			if r.Intn(2) == 0 {
+				c["WorkerCount"] = pick(0, 1, 2, 3, 64, 257, -1)
+			}
+			if r.Intn(2) == 0 {
+				c["IncomingQueueSize"] = pick(0, 1, -1, 3, 30000, 1<<22)
+			}
+			if r.Intn(2) == 0 {
+				c["PeerQueueSize"] = pick(0, 1, -1, 3, 30000, 1<<22)
+			}
+			if r.Intn(3) == 0 {
+				c["MaxAlloc"] = pick(0, 1, "1Mb", "1Gb", -1)
+			}
+			if r.Intn(3) == 0 {
+				c["AvailableMemory"] = pick("1Mb", "4Gb", 0, 1)
+				c["MaxMemoryPercentage"] = pick(10, 75, 100, 100, 9, 101)
+			}
+			if r.Intn(3) == 0 {
+				c["HealthCheckTimeout"] = durs[r.Intn(len(durs))]
+			}
+			if r.Intn(3) == 0 {
+				c["ShutdownDelay"] = durs[r.Intn(len(durs))]
+			}
+			main["Collection"] = c
+		}
+		if r.Intn(2) == 0 {
+			c := map[string]any{}
+			if r.Intn(2) == 0 {
+				c["KeptSize"] = pick(0, 1, 2, 3, 10000, 1<<22)
+			}
+			if r.Intn(2) == 0 {
+				c["DroppedSize"] = pick(0, 1, 2, 3, 10000, 1<<22)
+			}
+			if r.Intn(2) == 0 {
+				c["SizeCheckInterval"] = atLeast("1s")
+			}
+			main["SampleCache"] = c
+		}
+		if r.Intn(2) == 0 {
+			c := map[string]any{"Mode": pick("never", "always", "monitor", "always", "bogus")}
+			if r.Intn(2) == 0 {
+				c["ActivationLevel"] = pick(0, 1, 50, 100, 100, 90, 101)
+			}
+			if r.Intn(2) == 0 {
+				c["DeactivationLevel"] = pick(0, 1, 50, 100, 100, 75, 101)
+			}
+			if r.Intn(2) == 0 {
+				c["SamplingRate"] = pick(0, 1, 2, 100, int64(1)<<40, int64(1)<<62)
+			}
+			if r.Intn(2) == 0 {
+				c["MinimumActivationDuration"] = durs[r.Intn(len(durs))]
+			}
+			main["StressRelief"] = c
+		}
+		if r.Intn(4) == 0 {
+			main["General"] = map[string]any{"ConfigurationVersion": 2, "ConfigReloadInterval": durs[r.Intn(len(durs))]}
+		}
+		if r.Intn(4) == 0 {
+			main["IDFields"] = map[string]any{"TraceNames": pick([]any{}, []any{""}, []any{"trace.trace_id", ""}, []any{"x"}), "ParentNames": pick([]any{}, []any{""}, []any{"trace.parent_id"})}
+		}
+		if r.Intn(4) == 0 {
+			main["Specialized"] = map[string]any{"AdditionalAttributes": pick(map[string]any{}, map[string]any{"": "v"}, map[string]any{"k": ""}), "EnvironmentCacheTTL": atLeast("15m")}
+		}
+		return c28Input{Kind: "mainconfig", Main: main}
 	default:
 		in := c28Input{Kind: "requests"}
 		n := 6 + r.Intn(8)
@@ -435,6 +515,12 @@ func c28LoadConfig(dir string, samplers map[string]any, mainSections ...map[stri
 	samplers, _ = c28NormNums(samplers).(map[string]any)
 	main := "General:\n  ConfigurationVersion: 2\nRefineryTelemetry:\n  AddRuleReasonToTrace: true\n"
 	if len(mainSections) > 0 && mainSections[0] != nil {
+		if _, ok := mainSections[0]["General"]; ok {
+			main = "RefineryTelemetry:\n  AddRuleReasonToTrace: true\n"
+		}
+		if _, ok := mainSections[0]["Network"]; !ok {
+			main += "Network:\n  ListenAddr: 127.0.0.1:0\n  PeerListenAddr: 127.0.0.1:0\n"
+		}
 		mb, err := yaml.Marshal(c28NormNums(mainSections[0]))
 		if err != nil {
 			return nil, err
@@ -540,6 +626,9 @@ func c28BuildAndDecide(cfg config.Config, res *c28Result, tids []string) {
 }
 
 func c28Child(raw json.RawMessage) (Case, error) {
+	// a configuration that makes refinery allocate without bound should kill the child, not the machine
+	lim := uint64(12) << 30
+	syscall.Setrlimit(syscall.RLIMIT_AS, &syscall.Rlimit{Cur: lim, Max: lim})
 	var in c28Input
 	if err := json.Unmarshal(raw, &in); err != nil {
 		return Case{}, err
@@ -637,6 +726,39 @@ func c28Child(raw json.RawMessage) (Case, error) {
 				tx.Stop()
 			}
 			res.Samplers = 2
+			// ... and a whole node (collector workers, sample caches, stress relief, routers) from the same configuration
+			mn2 := newCrossMemNet()
+			node, nerr := crossStartFullNode(crossFullOpts{Addr: "http://node-a:8081", PeerList: []string{"http://node-a:8081"}, Net: mn2, CfgAny: cfg, Origin: "A"})
+			if nerr == nil {
+				res.Samplers = 3
+				for i := 0; i < 4; i++ {
+					data := map[string]any{"trace.trace_id": fmt.Sprintf("t%d", i%2), "sid": i, "name": "s", "x": i}
+					if i%2 == 1 {
+						data["trace.parent_id"] = "p"
+					}
+					node.PostBatch("ds", crossLegacyKey, []crossBatchEvent{{SampleRate: 1, Data: data}})
+				}
+				node.WaitIdle(2 * time.Second)
+				node.Stress.Recalc()
+				// The collector runs on a FAKE clock: advancing it fires every tick in between, so a
+				// nanosecond SendTicker must not be advanced across minutes and a 292-year one overflows the fake
+				// clock's arithmetic (both would be the harness spinning, not refinery).
+				step := tc.GetSendTickerValue()
+				if step >= time.Millisecond && step <= time.Hour {
+					for i := 0; i < 20; i++ {
+						node.CollClock.Advance(step)
+					}
+					node.CollClock.Advance(2 * time.Minute)
+				} else if step > 0 && step < time.Millisecond {
+					for i := 0; i < 50; i++ {
+						node.CollClock.Advance(step)
+					}
+				}
+				time.Sleep(30 * time.Millisecond)
+				node.Stop()
+			} else {
+				res.RejectMsg = "node start: " + nerr.Error()
+			}
 		} else if err != nil {
 			res.RejectMsg = err.Error()
 		}
